@@ -151,8 +151,10 @@ let spec_ruis cap progs rets final =
       for i = 0 to cap - 1 do
         if (mask lsr i) land 1 = 1 then begin
           let cands = List.filter (fun e -> e.idx = i && e.d = d && e.a0 <= r.p && e.rec_start = inf && (e.b2 = inf || e.b2 >= r.start)) eps in
-          (* at most one episode of an index is live at a time: the earliest one not yet ended is the one taken *)
-          match cands with
+          (* at most one episode of an index is live at a time: the earliest one not ended when the recover returns is
+             the one taken; otherwise the latest one that ended inside the recover call *)
+          let still_open = List.filter (fun e -> e.b2 = inf || e.b2 >= r.p) cands in
+          match (if still_open <> [] then still_open else List.rev cands) with
           | e :: _ -> e.rec_start <- r.start; e.b1 <- min e.b1 r.start; e.b2 <- (if e.b2 = inf then r.p else max e.b2 r.p)
           | [] ->
             (* a cell populated by an acquire(d) that then returned IsLocked (leaked cell of a locked set) *)
